@@ -9,9 +9,20 @@ package pow
 //@ func PoWConsensus.ParseConsensusStorage
 //@   noverify
 //@   pure
+// (refreshDifficulty is used as a function of its arguments by CheckMinerMatch below; what is
+// proved of its body is the retarget rule's clamp: the measured span of a window enters the new
+// target only within a factor of four of the expected span, in both target encodings - a block
+// is never accepted under a target more than four times easier than the window's.)
 //@ func PoWConsensus.refreshDifficulty
-//@   noverify
+//@   property C16
 //@   pure
+//@   trustcallees
+//@   at SetCompact assert [C16] measured_span_within_a_factor_of_four: actualTimeSpan <= expectedTimeSpan * 4 && (expectedTimeSpan >= 0 ==> actualTimeSpan >= expectedTimeSpan / 4)
+//@   at Int.Lsh#1 assert [C16] measured_span_within_a_factor_of_four_legacy: actualTimeSpan <= expectedTimeSpan * 4 && (expectedTimeSpan >= 0 ==> actualTimeSpan >= expectedTimeSpan / 4)
+//@   at Int.Mul#1 assert [C16] the_clamped_span_scales_the_target: sel(bigval, $1) == actualTimeSpan
+//@   at Int.Div#1 assert [C16] over_the_expected_span: sel(bigval, $1) == expectedTimeSpan
+//@   at Int.Mul#2 assert [C16] legacy_the_expected_span_scales: sel(bigval, $1) == expectedTimeSpan
+//@   at Int.Div#2 assert [C16] legacy_over_the_clamped_span: sel(bigval, $1) == actualTimeSpan
 //@ func PoWConsensus.IsProofed
 //@   noverify
 //@   pure
